@@ -62,7 +62,7 @@ func streamify(r *mon.Rand, g *gspec.GraphSpec) {
 func TestCheck(t *testing.T) {
 	cfg := mon.Load(ID)
 	rep := mon.NewReporter(cfg, "exploration",
-		"generated acyclic graph-AllPredecessor / Workflow specs and qualifying Pregel specs (END reached with no other node scheduled) in which every body natively streams from a Pipe(cap 0/1/3)+goroutine producer with padded outputs, with fan-out copies, fan-in merges, single/multi/stream/prefix-reading branch conditions, two branches per source, stream state handlers, key nodes, field mappings, nested graphs and callback handlers that close their stream copies at once, after a prefix, or read them fully; called through Stream and Transform; the caller reads j = 0,1,2,..,all chunks and closes. Oracle: after the run the process is driven to quiescence (goroutine-state monitor); no goroutine with an eino frame or a harness producer frame may remain parked, and every producer must have seen `closed` or finished. Precondition (from the statement) enforced on the reference run: every produced value has a consumer. Non-trivial: a run with >=2 goroutine-backed producers where the caller stopped before EOF or a branch/handler closed a copy early; distinct = (spec, input, stop point, handler mode).",
+		"generated acyclic graph-AllPredecessor / Workflow specs and qualifying Pregel specs (END reached with no other node scheduled) in which every body natively streams from a Pipe(cap 0/1/3)+goroutine producer with padded outputs, with fan-out copies, fan-in merges, single/multi/stream/prefix-reading branch conditions, two branches per source, stream state handlers, key nodes, field mappings, nested graphs and callback handlers that close their stream copies at once, after a prefix, or read them fully; called through Stream and Transform; the caller reads j = 0,1,2,..,all chunks and closes. Oracle: after the run the process is driven to quiescence (goroutine-state monitor); no goroutine with an eino frame or a harness producer frame may remain parked, and every producer must have seen `closed` or finished. Precondition (from the statement) enforced on the reference run: every produced value has a consumer. A share of the cases (eager_test.go) are Workflows executed under PRNG-chosen delay plans (sleeps in node bodies and before single chunks: producers late / END path late / close race / slow chunks / none) in which streaming producers feed, through data-only inputs, nodes that a forced branch outcome skips (several skipped consumers, skipped chains, intermediates, merging intermediates, one copy consumed on the END path, a successor of the END path that becomes ready together with END; alone or nested in a DAG/Workflow/Pregel graph): the run returns at END while such producers are running, finished but not collected, or not started. Non-trivial: a run with >=2 goroutine-backed producers where the caller stopped before EOF or a branch/handler closed a copy early; distinct = (spec, input, stop point, handler mode).",
 		[]string{"the harness starts no timers (quiescence is state based)", "each reader is driven by one goroutine and closed once", "runs whose reference has a produced value without any consumer are skipped and counted"},
 		100)
 	defer func() {
@@ -73,6 +73,8 @@ func TestCheck(t *testing.T) {
 	ctx := context.Background()
 	n := int64(cfg.Pick(600, 4000))
 	rep.Require("leak_checks_settled", 50)
+	rep.Require("eager_end_runs_with_a_producer_returning_after_the_end_path", 20)
+	rep.Require("eager_end_runs_with_a_producer_returning_before_the_end_path", 20)
 	rep.Cases(n, func(idx int64, rng *mon.Rand) {
 		if idx%8 == 7 {
 			surplusCase(ctx, rep, rng, cfg)
